@@ -320,13 +320,27 @@ fn make_fake() -> (FuncPtr, CallCountVerifier) {{
     injectorpp::fake!({invocation})
 }}
 
+// VGEN_TEARDOWN set: the whole script runs from a fixture's destructor while the thread unwinds
+// from a failed test body (`std::thread::panicking()` is true for every use of the fake)
 fn main() {{
+    // (the hook cannot be replaced from a thread that is already panicking: install it first)
     std::panic::set_hook(Box::new(|info| {{
         let msg = if let Some(s) = info.payload().downcast_ref::<&str>() {{ s.to_string() }} else if let Some(s) = info.payload().downcast_ref::<String>() {{ s.clone() }} else {{ "?".to_string() }};
+        if msg == "the test body fails" {{ return; }}
         // evaluation counters at the moment of the panic (observable even when the ABI cannot unwind
         // and the process aborts right after this hook)
         eprintln!("PANIC {{}} ## assign_evals={{}} ret_evals={{}}", msg.replace('\n', " "), ASSIGN_EVALS.load(SeqCst) - BASE_ASSIGN.load(SeqCst), RET_EVALS.load(SeqCst) - BASE_RET.load(SeqCst));
     }}));
+    if std::env::var("VGEN_TEARDOWN").is_ok() {{
+        struct Fixture;
+        impl Drop for Fixture {{ fn drop(&mut self) {{ real_main(); }} }}
+        let _ = std::panic::catch_unwind(|| {{ let _f = Fixture; panic!("the test body fails"); }});
+    }} else {{
+        real_main();
+    }}
+}}
+
+fn real_main() {{
     let stdin = std::io::stdin();
     let mut lines = stdin.lock().lines();
     // one block per injector lifetime: "<times>", call lines, "end"; every block evaluates the SAME
@@ -510,12 +524,14 @@ def write_if_changed(p, s):
 # --------------------------------------------------------------------------------------------
 # reference model + runner for arm scripts
 
-def run_arm(exe, times, calls, timeout=20, more_blocks=()):
-    """one lifetime (times, calls), optionally followed by further lifetimes [(times, calls), ...]"""
+def run_arm(exe, times, calls, timeout=20, more_blocks=(), teardown=False):
+    """one lifetime (times, calls), optionally followed by further lifetimes [(times, calls), ...];
+    teardown: everything runs from a destructor while the thread unwinds"""
     inp = ""
     for (t, cs) in [(times, calls)] + list(more_blocks):
         inp += f"{t}\n" + "".join(f"{a} {w} {k} {r}\n" for (a, w, k, r) in cs) + "end\n"
-    p = subprocess.run([exe], input=inp, stdout=subprocess.PIPE, stderr=subprocess.PIPE, text=True, timeout=timeout)
+    env = dict(os.environ, VGEN_TEARDOWN="1") if teardown else None
+    p = subprocess.run([exe], input=inp, stdout=subprocess.PIPE, stderr=subprocess.PIPE, text=True, timeout=timeout, env=env)
     return p.returncode, p.stdout.splitlines(), p.stderr.splitlines()
 
 
@@ -556,7 +572,7 @@ def model_conc(opts, times, threads, k, out, err):
     return None
 
 
-def _model_block(opts, times, calls, rc, out, err, unwinds, li, pi, panics, ex, last):
+def _model_block(opts, times, calls, rc, out, err, unwinds, li, pi, panics, ex, last, teardown=False):
     """one injector lifetime, starting at out[li] == "INSTALLED"; returns (verdict, li, pi)"""
     if li >= len(out) or out[li] != "INSTALLED":
         return ("install-failed", f"installation of the arm's fake failed: stdout {out[li:li+3]} stderr {err[:3]}"), li, pi
@@ -635,7 +651,8 @@ def _model_block(opts, times, calls, rc, out, err, unwinds, li, pi, panics, ex, 
         return ("protocol", f"missing EXIT; stdout tail {out[-3:]} stderr tail {err[-3:]}"), li, pi
     li += 1
     dropline = out[li] if li < len(out) else ""
-    want_exit_panic = opts["times"] and count != times
+    # (no verdict is raised at scope exit while the thread is already unwinding)
+    want_exit_panic = opts["times"] and count != times and not teardown
     if want_exit_panic:
         if dropline != "DROP-PANIC":
             return ("exit-verification-missed", f"{count} matching calls against times {times}, but scope exit did not panic ({dropline!r})"), li, pi
@@ -658,7 +675,7 @@ def _model_block(opts, times, calls, rc, out, err, unwinds, li, pi, panics, ex, 
     return None, li + 2, pi
 
 
-def model_and_compare(opts, times, calls, rc, out, err, unwinds, more_blocks=()):
+def model_and_compare(opts, times, calls, rc, out, err, unwinds, more_blocks=(), teardown=False):
     """returns (None | (signature, message), classes exercised); blocks = consecutive lifetimes that
     evaluate the same fake! expression"""
     panics = [l[6:] for l in err if l.startswith("PANIC ")]
@@ -666,7 +683,7 @@ def model_and_compare(opts, times, calls, rc, out, err, unwinds, more_blocks=())
     blocks = [(times, calls)] + list(more_blocks)
     li, pi = 0, 0
     for bi, (t, cs) in enumerate(blocks):
-        verdict, li, pi = _model_block(opts, t, cs, rc, out, err, unwinds, li, pi, panics, ex, bi + 1 == len(blocks))
+        verdict, li, pi = _model_block(opts, t, cs, rc, out, err, unwinds, li, pi, panics, ex, bi + 1 == len(blocks), teardown=teardown)
         if verdict is not None:
             if bi > 0:
                 verdict = (verdict[0] + "/in-later-lifetime-of-same-site", f"lifetime {bi} of {len(blocks)} evaluating the same fake! expression: " + verdict[1])
@@ -758,8 +775,8 @@ def cmd_c08(out_path, prop="C08"):
 
         @seed(SEED * 1000 + m["idx"])
         @settings(max_examples=n_scripts, database=None, deadline=None, derandomize=False, suppress_health_check=list(HealthCheck), phases=[Phase.generate, Phase.shrink])
-        @given(blocks=st.lists(block, min_size=2 if multi else 1, max_size=3 if multi else 1))
-        def prop_arm(blocks):
+        @given(blocks=st.lists(block, min_size=2 if multi else 1, max_size=3 if multi else 1), teardown=st.sampled_from([False, False, False, True]))
+        def prop_arm(blocks, teardown):
             if not unwinds:
                 # a predicted panic aborts: keep at most one panicking call, as the last one of
                 # the last lifetime
@@ -782,10 +799,12 @@ def cmd_c08(out_path, prop="C08"):
                         break
                 blocks = kept
             (times, calls), more = blocks[0], blocks[1:]
-            rc, out, err = run_arm(exe, times, calls, more_blocks=more)
-            verdict, ex = model_and_compare(o, times, calls, rc, out, err, unwinds, more_blocks=more)
-            rec.eval(lambda: {"arm": m["idx"], "line": m["line"], "options": label, "times": times, "calls": calls, "later_lifetimes": more, "stdout_tail": out[-3:]})
+            rc, out, err = run_arm(exe, times, calls, more_blocks=more, teardown=teardown)
+            verdict, ex = model_and_compare(o, times, calls, rc, out, err, unwinds, more_blocks=more, teardown=teardown)
+            rec.eval(lambda: {"arm": m["idx"], "line": m["line"], "options": label, "times": times, "calls": calls, "later_lifetimes": more, "from_tear_down_while_unwinding": teardown, "stdout_tail": out[-3:]})
             rec.cls(label)
+            if teardown:
+                rec.cls("script-run-from-tear-down-while-unwinding")
             if multi:
                 absorbed = sum(1 for (a, w, k, r) in calls if not (o["when"] and not (a >= w)))
                 rec.cls(f"lifetimes={len(blocks)}" + ("/earlier-lifetime-absorbed-calls" if absorbed and more else ""))
@@ -796,10 +815,10 @@ def cmd_c08(out_path, prop="C08"):
                 if full and unwinds or (not unwinds and (ex["when_rejected"] or ex["over"] or len(ex["two_ret_k"]) >= 2)):
                     rec.nontriv([m["idx"], times, calls])
             if verdict is not None:
-                msg = rec.fail(f"{prop}/{verdict[0]}/{label}", f"arm {m['idx']} (macros.rs line {m['line']}, {label}), times {times}, script {calls}" + (f", then lifetimes {more} evaluating the same fake! expression" if more else "") + f": {verdict[1]}")
+                msg = rec.fail(f"{prop}/{verdict[0]}/{label}", f"arm {m['idx']} (macros.rs line {m['line']}, {label}), times {times}, script {calls}" + (f", then lifetimes {more} evaluating the same fake! expression" if more else "") + (" [the script ran from a destructor while the thread was unwinding]" if teardown else "") + f": {verdict[1]}")
                 if msg:
                     rec.frozen = True
-                    failure["case"] = {"arm": m["idx"], "line": m["line"], "options": label, "times": times, "calls": [list(c) for c in calls], "more": [[t, [list(c) for c in cs]] for (t, cs) in more]}
+                    failure["case"] = {"arm": m["idx"], "line": m["line"], "options": label, "times": times, "calls": [list(c) for c in calls], "more": [[t, [list(c) for c in cs]] for (t, cs) in more], "teardown": teardown}
                     failure["msg"] = msg
                     raise AssertionError(msg)
 
@@ -1045,8 +1064,9 @@ def cmd_replay(path):
         return 0
     calls = [tuple(c) for c in case["calls"]]
     more = [(t, [tuple(c) for c in cs]) for (t, cs) in case.get("more", [])]
-    rc, out, err = run_arm(res[name]["exe"], case["times"], calls, more_blocks=more)
-    verdict, _ = model_and_compare(opts, case["times"], calls, rc, out, err, "extern" not in opts["quals"], more_blocks=more)
+    td = bool(case.get("teardown"))
+    rc, out, err = run_arm(res[name]["exe"], case["times"], calls, more_blocks=more, teardown=td)
+    verdict, _ = model_and_compare(opts, case["times"], calls, rc, out, err, "extern" not in opts["quals"], more_blocks=more, teardown=td)
     if verdict is None:
         print("replay: property holds on this case")
         return 0
